@@ -22,6 +22,7 @@ INVARIANT Conservation
 INVARIANT Result
 INVARIANT NoEmptyPiece
 INVARIANT Bounded
+INVARIANT FnAgrees
 PROPERTY Progress
 CHECK_DEADLOCK FALSE
 """
